@@ -18,7 +18,7 @@ def main(n):
 def families(tier):
     q = tier == 'quick'
     L = 2 if q else 3
-    common = dict(units=['strings.c', 'debug.c'], stubs=['msgs_stub.c', 'libc_models.c'], cap=(300, 10) if q else (900, 14))
+    common = dict(units=['strings.c', 'debug.c'], stubs=['msgs_stub.c', 'libc_models.c'], cap=(300, 6) if q else (900, 12))
     f = Family('version', 'c17_version.c', unwind=L + 2, note='laws on symbolic strings; main loop bound = longer length + 1', **common)
     for la in range(0, L + 1):
         for lb in range(0, L + 1):
